@@ -893,6 +893,12 @@ func flatTemplate(v ssa.Value, depth int) (string, []ssa.Value, bool) {
 			i--
 			continue
 		}
+		// strconv.Itoa(n) spliced into a string is what %d prints
+		if call, isCall := ops[i].(*ssa.Call); isCall && calleeName(call) == "strconv.Itoa" {
+			f = f[:start] + "%d" + f[end:]
+			ops = append(append(append([]ssa.Value{}, ops[:i]...), call.Call.Args[0]), ops[i+1:]...)
+			continue
+		}
 		if sf, sops, ok := flatTemplate(ops[i], depth+1); ok {
 			f = f[:start] + sf + f[end:]
 			ops = append(append(append([]ssa.Value{}, ops[:i]...), sops...), ops[i+1:]...)
